@@ -221,7 +221,7 @@ class Project:
                 for al in n.names:
                     local = al.asname or al.name
                     full = mod + "." + al.name if mod else al.name
-                    m.imports.setdefault(local, self._canon_mod(full))
+                    m.imports.setdefault(local, self._canon_mod(full, getattr(n, "level", 0)))
         for n in m.tree.body:
             if isinstance(n, (ast.FunctionDef, ast.ClassDef)):
                 m.toplevel[n.name] = n
@@ -233,12 +233,18 @@ class Project:
                 m.toplevel.setdefault(n.target.id, n)
         self._index_defs(m, m.tree.body, prefix=m.name, cls=None, parent=None)
 
-    def _canon_mod(self, dotted):
+    def _canon_mod(self, dotted, level=0):
         p = self.PACKAGE + "."
         if dotted == self.PACKAGE:
             return self.PACKAGE
         if dotted.startswith(p):
             return dotted[len(p):]
+        if level:
+            return dotted          # relative import: a module of the package
+        if dotted.split(".")[0] in self.modules:
+            # an absolute import of a top-level module that merely shares its name with a package module (import inspect
+            # inside gffutils is the standard library's): kept apart from the package's own module
+            return "stdlib:" + dotted
         return dotted
 
     def _index_defs(self, m, body, prefix, cls, parent):
@@ -404,7 +410,7 @@ class Project:
                 elif isinstance(n, ast.ImportFrom):
                     for al in n.names:
                         full = (n.module + "." if n.module else "") + al.name
-                        li[al.asname or al.name] = self._canon_mod(full)
+                        li[al.asname or al.name] = self._canon_mod(full, getattr(n, "level", 0))
             f._local_imports = li
         return li
 
